@@ -85,7 +85,9 @@ mutual
 def representable : Op → Bool
   | .leaf _ => true
   | .val _ => false
-  | .node _ a _ d _ _ => representableL a && representableL d
+  | .node cls a _ d _ _ =>
+    -- ZeroLinearOperator overrides `representation()` (returns `()`), so its integer size arguments do not raise
+    if cls = "ZeroLinearOperator" then true else representableL a && representableL d
 def representableL : List Op → Bool
   | [] => true
   | x :: xs => representable x && representableL xs
@@ -103,13 +105,16 @@ def widthL : List Op → Nat
 inductive RT where
   | idx (i : Nat)
   | sub (lo hi : Nat) (cls : String) (ch : List RT) (dn : List String) (nkw : KV)
+  | zero (args : List Op) (nkw : KV)   -- `_ZeroLinearOperatorRepresentationTree`: sizes, dtype, device
   deriving Repr
 
 mutual
 def treeAt (c : Nat) : Op → RT
   | .leaf _ => .idx c
   | .val _ => .idx c
-  | .node cls a dn d nkw _ => .sub c (c + (repL a ++ repL d).length) cls (treeL 0 a ++ treeL (widthL a) d) dn nkw
+  | .node cls a dn d nkw _ =>
+    if cls = "ZeroLinearOperator" then .zero a nkw
+    else .sub c (c + (repL a ++ repL d).length) cls (treeL 0 a ++ treeL (widthL a) d) dn nkw
 def treeL (c : Nat) : List Op → List RT
   | [] => []
   | x :: xs => treeAt c x :: treeL (c + width x) xs
@@ -167,6 +172,10 @@ def lookupInt (kw : List (String × Op)) (k : String) : Option Int :=
   match kw.find? (·.1 = k) with
   | some (_, .val (.int i)) => some i
   | _ => none
+
+def isDtVal : Op → Bool
+  | .val (.dt _) => true
+  | _ => false
 
 def isDictVal : Op → Bool
   | .val (.str s) => s = "dict"
@@ -275,9 +284,14 @@ def construct (cfg : Cfg) (cls : String) (pos : List Op) (kw : List (String × O
 def kwOf (dn : List String) (dv : List Op) (nkw : KV) : List (String × Op) :=
   dn.zip dv ++ nkw.map (fun p => (p.1, Op.val p.2))
 
+/-- `_ZeroLinearOperatorRepresentationTree.__init__` records the *resolved* dtype (`dtype or default`) -/
+def resolveZero (cfg : Cfg) (nkw : KV) : KV :=
+  nkw.map (fun p => if p.1 = "dtype" then (match p.2 with | .none => (p.1, Val.dt cfg.defaultDT) | _ => p) else p)
+
 mutual
 def call (cfg : Cfg) : RT → List Leaf → Option Op
   | .idx i, flat => (flat[i]?).map Op.leaf
+  | .zero a nkw, _ => construct cfg "ZeroLinearOperator" a (kwOf [] [] (resolveZero cfg nkw))
   | .sub lo hi cls ch dn nkw, flat =>
     match callL cfg ch ((flat.drop lo).take (hi - lo)) with
     | none => none
@@ -481,6 +495,10 @@ def normalForm (cls : String) (args : List Op) (kw : List (String × Op)) : Bool
   else if cls = "KernelLinearOperator" then
     kw.any (·.1 = "num_nonbatch_dimensions") &&
     kw.all (fun p => p.1 != "num_nonbatch_dimensions" || isDictVal p.2)
+  else if cls = "ZeroLinearOperator" then
+    -- sizes only, no tensor/operator keyword, explicit dtype (the private tree stores the resolved dtype)
+    args.all (fun x => !x.isDiff) && kw.all (fun p => !p.2.isDiff) &&
+      kw.all (fun p => p.1 != "dtype" || isDtVal p.2)
   else true
 
 def nodeOK (cfg : Cfg) (cls : String) (a : List Op) (dn : List String) (d : List Op) (nkw : KV) (hid : KV) : Bool :=
